@@ -59,6 +59,9 @@ func timerScenario(prog []timerOp, maxRetrans uint, rtoMax float64) *Scenario {
 					if ok != (!running && !closed) && !(running && len(obs.failures) > 0) {
 						// (after a reported failure the timer is stopped again)
 					}
+					if ok && closed {
+						m.viol = append(m.viol, Violation{"timer.closed", fmt.Sprintf("start succeeded on a closed timer (program %v)", prog)})
+					}
 					if ok {
 						running = true
 						spans = append(spans, span{m.S.Now(), -1})
@@ -365,7 +368,22 @@ func c19Scenario(spec *c19Spec) *Scenario {
 				m.S.WaitIdle()
 				sa.Close()
 				m.Sleep(run)
-			case "heartbeat", "heartbeat0":
+			case "heartbeat", "heartbeat0", "heartbeat-pending":
+				if spec.kind == "heartbeat-pending" {
+					// the peer has data it cannot get acknowledged and has called Shutdown: it is in
+					// SHUTDOWN-PENDING, the association is alive and this side still ESTABLISHED
+					m.W.killFn = func(p *wpkt) bool { return p.from == 1 && isType(p, wDATA) }
+					sb.WriteSCTP(payload(1, 7, 40), PayloadTypeWebRTCBinary)
+					m.Go("shutB", func() {
+						ctx, cancel := context.WithTimeout(context.Background(), 20*time.Second)
+						defer cancel()
+						m.As[1].Shutdown(ctx)
+					})
+					m.WaitUntil("peer-pending", 5*time.Second, func() bool { return m.As[1].getState() == shutdownPending })
+					if m.As[1].getState() != shutdownPending || m.As[0].getState() != established {
+						m.Failf("heartbeat.base", "could not reach SHUTDOWN-PENDING / ESTABLISHED (%s / %s)", getAssociationStateString(m.As[1].getState()), getAssociationStateString(m.As[0].getState()))
+					}
+				}
 				m.W.faultsOn = true
 				s0 := m.As[0].SRTT()
 				m.As[0].ActiveHeartbeat()
@@ -702,6 +720,9 @@ func c19EndToEnd(j *Job) {
 		{{0, "start"}, {500 * time.Millisecond, "start"}, {7000 * time.Millisecond, "close"}, {7000 * time.Millisecond, "start"}},
 		{{0, "start"}, {1000 * time.Millisecond, "close"}},
 		{{0, "start"}, {999 * time.Millisecond, "stop"}, {1000 * time.Millisecond, "start"}, {2000 * time.Millisecond, "stop"}, {2000 * time.Millisecond, "start"}, {3000 * time.Millisecond, "stop"}},
+		// a closed timer stays closed whatever is called on it afterwards
+		{{0, "start"}, {500 * time.Millisecond, "close"}, {600 * time.Millisecond, "stop"}, {700 * time.Millisecond, "start"}, {5000 * time.Millisecond, "stop"}, {5000 * time.Millisecond, "start"}},
+		{{0, "close"}, {100 * time.Millisecond, "stop"}, {100 * time.Millisecond, "start"}},
 	}
 	for pi, prog := range progs {
 		for _, mr := range []uint{0, 3} {
@@ -744,9 +765,9 @@ func c19EndToEnd(j *Job) {
 				j.Explore(fmt.Sprintf("E/%s/rtomax%v/il%v", kind, rm, il), c19Scenario(&c19Spec{kind: kind, rtoMax: rm, il: il}), Budget{}, nil)
 			}
 		}
-		for _, kind := range []string{"heartbeat", "heartbeat0"} {
+		for _, kind := range []string{"heartbeat", "heartbeat0", "heartbeat-pending"} {
 			for _, dl := range []time.Duration{0, 30 * time.Millisecond} {
-				if kind == "heartbeat0" && dl != 0 {
+				if kind != "heartbeat" && dl != 0 {
 					continue
 				}
 				j.Explore(fmt.Sprintf("E/%s/delay%v/il%v", kind, dl, il), c19Scenario(&c19Spec{kind: kind, rtoMax: 4000, il: il, delay: dl}), Budget{K: 1}, nil)
@@ -787,6 +808,19 @@ func c19EndToEnd(j *Job) {
 			if j.capped() {
 				return
 			}
+		}
+	}
+	// small messages in separate packets; after losses the retransmission timer bundles several
+	// of them into one packet, which can then carry a duplicate next to new data
+	for _, mode := range modes[:2] {
+		for _, n := range []int{2, 3} {
+			var msgs []msgSpec
+			for i := 0; i < n; i++ {
+				msgs = append(msgs, msgSpec{Size: 20 + i, PPI: 53})
+			}
+			spec := &xferSpec{A: withBase(mode.A, 228, 0xFFFFFFFC, 4000), B: withBase(mode.B, 228, 3, 4000), Faults: faultSet{Drop: true},
+				Streams: []streamSpec{{SID: 1, From: 0, Gap: 20 * time.Millisecond, Msgs: msgs}}}
+			cases = append(cases, xferCase{Name: fmt.Sprintf("K/%s/small-bundle%d", mode.Name, n), K: 2, Spec: spec})
 		}
 	}
 	for _, c := range cases {
